@@ -234,8 +234,8 @@ REGISTRY["C18"] = {
     "modules": ["contracts.cfg"],
     "category": "other",
     "technique": "contract-based deductive verification of code.block (length/support/slicing/cutting) on stub instructions of symbolic length and address (z3); run-time small-scope exhaustive contract on cfg.graph.add_vertex over every insertion order",
-    "level_text": "Bounded symbolic: block.length/support/__getitem__/cut for blocks of <= 4 instructions with ALL lengths (1..15) and start addresses. Run-time contract (concrete, small-scope exhaustive, never counted as proved): three streams of 6 instructions (thorough: nine), every subset of <= 3 (thorough 4) block starts inserted in every order; after every insertion graph.support holds pairwise-disjoint blocks containing every inserted instruction exactly once, with a fall-through edge at every split. Linear sweep over real code (lsweep) is not covered.",
-    "level_note": "trusted: z3, symx engine/shims; the stub instruction exposes address/length/bytes only. lsweep.sequence/iterblocks and delay-slot handling are not under contract.",
+    "level_text": "Bounded symbolic: block.length/support/__getitem__/cut for blocks of <= 4 instructions with ALL lengths (1..15) and start addresses. Run-time contract (concrete, small-scope exhaustive, never counted as proved): three streams of 6 instructions (thorough: nine), every subset of <= 4 (thorough: all 6, 43 streams) block starts inserted in every order; after every insertion graph.support holds pairwise-disjoint blocks containing every inserted instruction exactly once, with a fall-through edge at every split. Linear sweep over real code (lsweep) is not covered.",
+    "level_note": "trusted: z3, symx engine/shims; the stub instruction exposes address/length/bytes only. lsweep.sequence/iterblocks are under a run-time contract only (the blocks of a linear sweep partition the swept instructions, raw buffers of 4 ISAs incl. two with delay slots and every prefix of them).",
     "design_ref": "DESIGN.md section 4 (C18)",
     "explanation": "bounded symbolic verification of block operations + small-scope exhaustive run-time contract on CFG insertion orders",
     "trusted_base": _TB + ["stub instruction objects (contracts/cfg.py)"],
